@@ -7,6 +7,7 @@ import (
 	"sync/atomic"
 
 	"github.com/deepteams/webp/internal/dsp"
+	"github.com/deepteams/webp/internal/verifhook"
 )
 
 // analysisWorker holds per-worker buffers for parallel analysis.
@@ -249,6 +250,7 @@ func computeAlphas(enc *VP8Encoder, alphas []int) int {
 	}
 
 	numWorkers := runtime.GOMAXPROCS(0)
+	numWorkers = verifhook.Workers(verifhook.SiteLossyComputeAlphas, numWorkers)
 	if numWorkers > total {
 		numWorkers = total
 	}
@@ -277,6 +279,7 @@ func computeAlphas(enc *VP8Encoder, alphas []int) int {
 		if startY >= endY {
 			break
 		}
+		verifhook.Range(verifhook.SiteLossyComputeAlphas, startY, endY)
 		wg.Add(1)
 		go func(startY, endY int) {
 			defer wg.Done()
